@@ -128,7 +128,7 @@ pub async fn transfer_file_to_remote(
         // byte count is what tells a complete transfer from a truncated one: only
         // a staging file of the announced size may be renamed into place.
         .arg(format!(
-            "cat > $'{tmp_escaped}' && [ \"$(wc -c < $'{tmp_escaped}')\" -eq {file_size} ] && mv -f $'{tmp_escaped}' $'{escaped}'{touch}"
+            "cat > $'{tmp_escaped}' && [ \"$(wc -c < $'{tmp_escaped}')\" -eq {file_size} ] && mv -fT $'{tmp_escaped}' $'{escaped}'{touch}"
         ))
         .stdin(std::process::Stdio::piped())
         .stdout(std::process::Stdio::null())
